@@ -4,7 +4,7 @@
 set -u
 ID="$1"; SFX="${2:-}"; WT="/tmp/wt/$ID$SFX"; low=$(echo "$ID" | tr 'A-Z' 'a-z')
 cd "$WT" || exit 2
-DEMO=$(ls paseto-test/tests/demo_*.rs 2>/dev/null | head -1)
+DEMO=$(ls paseto-test/tests/demo_*.rs paseto-*/tests/demo_*.rs 2>/dev/null | head -1)
 [ -f seeded_patch.diff ] || { echo "no seeded_patch.diff"; exit 2; }
 [ -n "$DEMO" ] || { echo "no demo"; exit 2; }
 demo_name=$(basename "$DEMO" .rs)
